@@ -78,6 +78,9 @@ Apply(h, kk, o) ==
     \* ("reneg_noccs": Finished and data still under the first handshake's keys - the client must not accept them)
     [] o.op = "srvscript" -> IF o.how = "reneg_honest" THEN h ELSE <<"SH", "CERT", "BAD">>
     [] o.op = "close"  -> SubSeq(h, 1, kk - 1) \o <<"EOF">>
+    \* the peer sends its whole flight, ChangeCipherSpec and a correct Finished and is gone right behind it: the endpoint's
+    \* own last flight (ChangeCipherSpec, Finished) cannot be sent - a handshake whose last flight never left is not complete
+    [] o.op = "wfail_fin" -> h
     [] o.op = "ccs"    -> SubSeq(h, 1, kk - 1) \o <<"X:CCS">> \o SubSeq(h, kk, Len(h))
     [] o.op \in {"appdata", "appdata_empty"} -> SubSeq(h, 1, kk - 1) \o <<"X:APP">> \o SubSeq(h, kk, Len(h))
     [] o.op = "fatalalert" -> SubSeq(h, 1, kk - 1) \o <<"X:ALERT">>
@@ -86,6 +89,7 @@ Ops(h) == {[op |-> "none"], [op |-> "refrag"]} \cup
           {[op |-> "warnalert", k |-> i] : i \in 1..Len(h)} \cup
           {[op |-> o, k |-> i] : o \in {"drop", "dup", "close", "ccs", "appdata", "appdata_empty", "fatalalert"}, i \in 1..Len(h)} \cup
           {[op |-> "close", k |-> Len(h) + 1]} \cup
+          (IF h[1] = "CH" THEN {[op |-> "wfail_fin", k |-> Len(h) + 1]} ELSE {}) \cup
           {[op |-> "swap", k |-> i] : i \in 1..(Len(h) - 1)} \cup
           {[op |-> "inject", k |-> i, t |-> t] : i \in 1..(Len(h) + 1), t \in InjTypes} \cup
           {[op |-> "trunc", k |-> i, how |-> w] : i \in 1..Len(h), w \in Truncs} \cup
